@@ -20,7 +20,7 @@ import (
 func TestMain(m *testing.M) {
 	kit.Main(m, "C12", "fault_enumeration",
 		"an interposed memcall implementation backed by ordinary slices keeps a shadow page table (per region: mapped, locked, protection, ever-held-secret, content when unlocked / freed) and fails the primitive calls whose index is planned. "+
-			"Programs = creation (New / CreateRandom with an injectable random source) ; WithBytes ; nested WithBytesFunc ; Reader ; Close ; Close issued while a reader is inside its callback (parked until the reader's possibly failing release) ; then follow-up reads, Close and Close again. The fault-free primitive sequence is recorded and a failure is injected at EVERY index and EVERY pair of indices (exhaustive), for protectedmemory (all primitives + random source) and memguard (Protect, the only primitive it routes through the interface); rapid only varies sizes and the follow-up. "+
+			"Programs = creation (New / CreateRandom with an injectable random source that can fail at any of its calls) ; WithBytes ; nested WithBytesFunc ; Reader ; Close ; Close issued while a reader is inside its callback (parked until the reader's possibly failing release) ; then follow-up reads, Close and Close again. The fault-free primitive sequence is recorded and a failure is injected at EVERY index and EVERY pair of indices (exhaustive), for protectedmemory (all primitives + random source) and memguard (Protect, the only primitive it routes through the interface); rapid only varies sizes and the follow-up. "+
 			"Oracle: a creation in which a primitive failed returns an error and no secret and leaves no region mapped, locked or readable unless the failed primitive was the very Free that would have released it; secret bytes are zero when their region is unlocked or freed; "+
 			"a failed open-for-read returns an error, does not run the callback and leaves the reader count unchanged (later reads work, Close does not hang); a failed Close returns an error and a retried Close succeeds and releases the region; InUseCounter / AllocCounter move only for successful creations and successful closes; nothing panics or hangs. "+
 			"One evaluation = one execution with one fault plan. Non-trivial = the fault fired and at least one primitive call followed it; enumerated plans are distinct by construction",
@@ -35,15 +35,16 @@ const (
 )
 
 type program struct {
-	kind     factoryKind
-	create   string // "New" or "CreateRandom"
-	size     int
-	randFail bool // CreateRandom: the random source fails
-	followUp []string
+	kind       factoryKind
+	create     string // "New" or "CreateRandom"
+	size       int
+	randFail   bool // CreateRandom: the random source fails ...
+	randFailAt int  // ... at its k-th call (0 = first; a source that is asked only once never reaches k > 0)
+	followUp   []string
 }
 
 func (p program) String() string {
-	return fmt.Sprintf("%s %s(size=%d randFail=%v) then %v", p.kind, p.create, p.size, p.randFail, p.followUp)
+	return fmt.Sprintf("%s %s(size=%d randFail=%v@call%d) then %v", p.kind, p.create, p.size, p.randFail, p.randFailAt, p.followUp)
 }
 
 var secretByte = byte(0xA7)
@@ -109,6 +110,7 @@ func run(p program, sh *shadow) string {
 		f = memguard.VerifNewFactory(sh)
 	}
 	want := bytes.Repeat([]byte{secretByte}, p.size)
+	randFired := false
 	var sec securememory.Secret
 	var err error
 	callsBefore := sh.ncalls()
@@ -116,9 +118,12 @@ func run(p program, sh *shadow) string {
 	case p.create == "New":
 		sec, err = f.New(append([]byte(nil), want...))
 	case p.kind == pm:
+		calls := 0
 		sec, err = protectedmemory.VerifCreateRandom(pf, p.size, func(b []byte) (int, error) {
-			if p.randFail {
+			calls++
+			if p.randFail && calls-1 == p.randFailAt {
 				// a partial read followed by an error: the region already holds bytes
+				randFired = true
 				for i := range b[:len(b)/2+1] {
 					b[i] = secretByte
 				}
@@ -133,7 +138,7 @@ func run(p program, sh *shadow) string {
 		sec, err = f.CreateRandom(p.size)
 		want = nil
 	}
-	creationFault := p.randFail
+	creationFault := randFired // the random source failed (at whichever of its calls was planned, if it was called that often)
 	for i := callsBefore; i < sh.ncalls(); i++ {
 		if sh.fired[i] {
 			creationFault = true
@@ -141,10 +146,10 @@ func run(p program, sh *shadow) string {
 	}
 	if creationFault {
 		if err == nil {
-			return fmt.Sprintf("a primitive failed during %s but no error was returned: silently degraded secret", p.create)
+			return fmt.Sprintf("a memory primitive or the random source failed during %s but no error was returned: silently degraded secret", p.create)
 		}
 		if sec != nil && !reflect.ValueOf(sec).IsNil() {
-			return fmt.Sprintf("a primitive failed during %s and it returned both an error and a usable secret", p.create)
+			return fmt.Sprintf("a memory primitive or the random source failed during %s and it returned both an error and a usable secret", p.create)
 		}
 		if p.kind == pm {
 			for _, r := range sh.leftovers() {
@@ -487,6 +492,7 @@ func TestRandomPrograms(t *testing.T) {
 		}
 		if p.kind == pm && p.create == "CreateRandom" {
 			p.randFail = rapid.IntRange(0, 3).Draw(t, "randFail") == 0
+			p.randFailAt = rapid.IntRange(0, 4).Draw(t, "randFailAtCall")
 		}
 		a, b := enumerate(t, p)
 		kit.Rec.Enumerated(a-1, b)
